@@ -11,10 +11,10 @@ import (
 )
 
 func v(name string, steps ...string) Expr { return Var{Name: name, Steps: steps} }
-func lit(i int) Expr                       { return Lit{V: IntV(i)} }
-func lits(s string) Expr                   { return Lit{V: StrV(s)} }
-func T(s string) Node                      { return Text{S: s} }
-func O(e Expr) Node                        { return Out{E: e} }
+func lit(i int) Expr                      { return Lit{V: IntV(i)} }
+func lits(s string) Expr                  { return Lit{V: StrV(s)} }
+func T(s string) Node                     { return Text{S: s} }
+func O(e Expr) Node                       { return Out{E: e} }
 
 // probe prints every forloop field and the loop variable(s)
 func probe(vars ...string) []Node {
@@ -285,7 +285,7 @@ func run(r *eng.Runner) {
 		for _, b := range seqs {
 			mkIn := func() For {
 				return For{Key: "y", Over: v("b"), Reversed: true, Body: []Node{
-				If{Conds: []Expr{Bin{Op: "==", L: v("x"), R: v("y")}, v("forloop", "Last")}, Bodies: [][]Node{{T("=")}, {T("L")}}, HasElse: true, Else: []Node{O(v("forloop", "Parentloop", "Counter0"))}},
+					If{Conds: []Expr{Bin{Op: "==", L: v("x"), R: v("y")}, v("forloop", "Last")}, Bodies: [][]Node{{T("=")}, {T("L")}}, HasElse: true, Else: []Node{O(v("forloop", "Parentloop", "Counter0"))}},
 					&Cycle{Args: []Expr{lits("o"), lits("e")}}}}
 			}
 			mid := If{Conds: []Expr{v("forloop", "First")}, Bodies: [][]Node{{T("F"), mkIn()}}, HasElse: true, Else: []Node{mkIn(), T("N")}}
